@@ -62,6 +62,11 @@ var impls = map[string]func(string) string{
 	"sftp.store":      implSftpStore,
 	"sftp.get":        implSftpGet,
 	"sftp.has":        implSftpHas,
+	"so.srv":          implSoSrv,
+	"so.glob":         implSoGlob,
+	"so.locmatch":     implSoLocMatch,
+	"so.store":        implSoStore,
+	"so.index":        implSoIndex,
 }
 
 type replayFile struct {
